@@ -319,6 +319,7 @@ func runOneHistory(opt TwinOptions, c int, r *rng.R, res *Result, hl *HistoryLog
 	okTx, hook, failedWithOk, injectedOK, midCrash := 0, 0, 0, 0, 0
 	flipAt := int64(2 + c%7) // derived from the case number, not from the generator state
 	var future [][]byte
+	var origOfForged [][]byte // valid originals of the forged copies the blocks carry (inject mode)
 	for bi := 0; bi < opt.Blocks; bi++ {
 		g.Height = sim.Height + 1
 		n := r.Intn(opt.MaxTxs + 1)
@@ -344,6 +345,21 @@ func runOneHistory(opt TwinOptions, c int, r *rng.R, res *Result, hl *HistoryLog
 			txs = append(txs, old)
 		}
 		future = append(future, txs...)
+		// C07: a block may carry a transaction nobody signed — the copy of a valid one with other
+		// bytes as signature (a faulty proposer can include anything). Every node refuses it, unless
+		// the mempool check of the VALID original, which only some nodes have seen, left something
+		// behind that the consensus path picks up: the original goes to CheckTx on replica B only
+		if opt.Mode == ModeInject && r.Intn(3) == 0 {
+			o := g.Next(wt) // the valid original is in no block: only the mempool check of B sees it
+			if f := forgedCopy(o, r); f.Bytes != nil {
+				origOfForged = append(origOfForged, o.Bytes)
+				if len(origOfForged) > 8 {
+					origOfForged = origOfForged[1:]
+				}
+				gts = append(gts, f)
+				txs = append(txs, f.Bytes)
+			}
+		}
 		bo := genBlockOpts(r, p.NVals)
 		b := sim.NextBlock(txs, bo)
 		logBlock(hl, b, gts, bo)
@@ -424,6 +440,11 @@ func runOneHistory(opt TwinOptions, c int, r *rng.R, res *Result, hl *HistoryLog
 					case 1:
 						if len(future) > 0 {
 							tx = future[r.Intn(len(future))]
+						}
+					case 2:
+						if len(origOfForged) > 0 {
+							tx = origOfForged[len(origOfForged)-1-r.Intn(min(2, len(origOfForged)))]
+							res.Counters["checktx_of_original_of_forged_copy"]++
 						}
 					}
 					if tx == nil && feeScript && b.Height >= 5 && b.Height <= 7 {
